@@ -103,7 +103,9 @@ class PostgreSQLQueryBuilder(QueryBuilder):
                     [j.criterion.tables_ for j in self._joins]  # type:ignore[attr-defined]
                 )
             )
-            join_and_base_tables = set(self._from) | join_tables
+            join_and_base_tables = (
+                set(self._from) | join_tables | {self._insert_table, self._update_table}
+            )
             table_not_base_or_join = bool(term.tables_ - join_and_base_tables)
             if not table_is_insert_or_update_table and table_not_base_or_join:
                 raise QueryException("You can't return from other tables")
